@@ -59,6 +59,11 @@ pub fn check_layout(module: &Module) -> Result<(), LayoutError> {
             TypeOrConstant::Constant(_) => panic!("invalid {:?} intrinsic", intrinsic_data),
         };
 
+        // A load inside a template that still depends on the template parameters is checked when it is instantiated
+        if is_dependent_type(module, ty) {
+            continue;
+        }
+
         if types_seen.insert(ty) {
             types_to_check.push((ty, module.get_type_location(ty)));
         }
@@ -188,6 +193,18 @@ fn get_type_layout(module: &Module, ty: TypeId, mode: PackingMode) -> Option<Lay
         TypeLayer::Array(_, None) => None,
         TypeLayer::TemplateParam(_) => panic!("unexpected template param"),
         TypeLayer::Modifier(_, ty) => get_type_layout(module, ty, mode),
+    }
+}
+
+/// Check if a type is built from a template parameter
+fn is_dependent_type(module: &Module, ty: TypeId) -> bool {
+    match module.type_registry.get_type_layer(ty) {
+        TypeLayer::TemplateParam(_) => true,
+        TypeLayer::Vector(inner, _)
+        | TypeLayer::Matrix(inner, _, _)
+        | TypeLayer::Array(inner, _)
+        | TypeLayer::Modifier(_, inner) => is_dependent_type(module, inner),
+        _ => false,
     }
 }
 
